@@ -1,0 +1,62 @@
+//go:build verif
+// +build verif
+
+// Contracts for the deductive verifier in /verif (govc). Comment-only: no executable code.
+package k8s
+
+//@ func (*objectStore).createOrUpdate$1 props C19
+//@   requires [item] item != nil && condition != nil && (item.Name == condition.Name || item.Name == "")
+//@   modifies persisted, pspec, cells("*proxyv1alpha1.RateLimitCondition"), fields("proxyv1alpha1.RateLimitCondition", "Spec"), fields("proxyv1alpha1.RateLimitCondition", "Status")
+//@   ensures [done_persisted] done && err == nil ==> item != nil && item.Name in persisted && pspec[item.Name] == item.Spec
+//@   ensures [name_kept] item != nil && (item.Name == old(condition.Name) || item.Name == "") && condition.Name == old(condition.Name) && (done && err == nil ==> item.Name == old(condition.Name))
+//@   ensures [monotone] forall n string :: {n in persisted} old(n in persisted) ==> n in persisted
+//@   ensures [old_objects_kept] forall c *proxyv1alpha1.RateLimitCondition :: {c.Spec} {c.Status} !fresh(c) ==> c.Spec == old(c.Spec) && c.Status == old(c.Status)
+
+//@ func (*objectStore).createOrUpdate props C19
+//@   requires [obj] condition != nil
+//@   modifies persisted, pspec, cells("*proxyv1alpha1.RateLimitCondition"), fields("proxyv1alpha1.RateLimitCondition", "Spec"), fields("proxyv1alpha1.RateLimitCondition", "Status")
+//@   ensures [acked_persisted] result1 == nil ==> result != nil && result.Name in persisted && pspec[result.Name] == result.Spec
+//@   ensures [same_name] result1 == nil ==> result.Name == old(condition.Name)
+//@   ensures [monotone] forall n string :: {n in persisted} old(n in persisted) ==> n in persisted
+//@   ensures [old_objects_kept] forall c *proxyv1alpha1.RateLimitCondition :: {c.Spec} {c.Status} !fresh(c) ==> c.Spec == old(c.Spec) && c.Status == old(c.Status)
+
+//@ func (*objectStore).Save props C19, C13
+//@   requires [obj] condition != nil && 1 <= s.shardCount && s.shardCount <= 4294967295
+//@   modifies *
+//@   ensures [foreign_refused] shardOf(old(condition.Spec.UpstreamCluster), old(s.shardCount)) != old(s.shard) ==> result != nil && localsaves == old(localsaves) && persisted == old(persisted) && pspec == old(pspec)
+//@   ensures [acked_persisted] old(s.syncPeriod) == 0 && result == nil ==> old(condition.Name) in persisted
+//@   ensures [api_before_local] old(s.syncPeriod) == 0 && localsaves > old(localsaves) ==> old(condition.Name) in persisted && localsaves == old(localsaves) + 1
+
+//@ func (*objectStore).Delete$1 props C19
+//@   modifies persisted
+//@   ensures [gone] err == nil ==> !(name in persisted)
+//@   ensures [others] forall n string :: {n in persisted} n != name ==> (n in persisted) == old(n in persisted)
+
+//@ func (*objectStore).Delete props C19
+//@   modifies *
+//@   ensures [api_first] localdeletes > old(localdeletes) ==> !(name in persisted) && localdeletes == old(localdeletes) + 1
+//@   ensures [error_keeps_local] result != nil && localdeletes == old(localdeletes) ==> true
+//@   ensures [others] forall n string :: {n in persisted} n != name ==> (n in persisted) == old(n in persisted)
+
+//@ func (*objectStore).doSyncLocked props C19
+//@   requires [count] 1 <= s.shardCount && s.shardCount <= 4294967295
+//@   modifies hashwritten, storeops, persisted, pspec, cells("*proxyv1alpha1.RateLimitCondition"), fields("proxyv1alpha1.RateLimitCondition", "Spec"), fields("proxyv1alpha1.RateLimitCondition", "Status")
+//@   ensures [flushed] defined(items) ==> (result == nil ==> forall k int :: {items[k]} 0 <= k && k < len(items) && shardOf(items[k].Spec.UpstreamCluster, s.shardCount) == s.shard ==> items[k].Name in persisted)
+//@   loop 0: invariant [bounds] 0 <= idx && idx <= len(items)
+//@   loop 0: invariant [done] forall k int :: {items[k]} 0 <= k && k < idx && shardOf(items[k].Spec.UpstreamCluster, s.shardCount) == s.shard ==> items[k].Name in persisted
+//@   loop 0: invariant [stable] s.shardCount == old(s.shardCount) && s.shard == old(s.shard)
+
+//@ func (*objectStore).Load props C19, C13
+//@   requires [count] 1 <= s.shardCount && s.shardCount <= 4294967295
+//@   modifies *
+//@   ensures [own_shard_only] forall n string :: {localsaved[n]} localsaved[n] != old(localsaved[n]) ==> shardOf(localsaved[n], old(s.shardCount)) == old(s.shard)
+//@   ensures [no_api_writes] persisted == old(persisted) && pspec == old(pspec)
+//@   loop 0: invariant [own] forall n string :: {localsaved[n]} localsaved[n] != old(localsaved[n]) ==> shardOf(localsaved[n], old(s.shardCount)) == old(s.shard)
+//@   loop 0: invariant [ro] persisted == old(persisted) && pspec == old(pspec) && s.shardCount == old(s.shardCount) && s.shard == old(s.shard)
+
+//@ func (*objectStore).Stop props C19
+//@   requires [count] 1 <= s.shardCount && s.shardCount <= 4294967295
+//@   modifies *
+//@   ensures [already] old(s.stopped) ==> result == nil && persisted == old(persisted) && storeops == old(storeops)
+//@   ensures [stopped_only_on_success] s.stopped && !old(s.stopped) ==> result == nil
+//@   ensures [error_not_stopped] result != nil ==> s.stopped == old(s.stopped)
